@@ -1197,6 +1197,7 @@ func GenProg(r *prng.R, cfg Cfg, pkg string) *Prog {
 	g := &G{r: r, cfg: cfg, prog: &Prog{Pkg: pkg}}
 	g.prog.Import = []string{"dot", "dot", "co", "renamed"}[r.Intn(4)]
 	g.prog.SeqImported = r.Chance(1, 6)
+	g.prog.LoadTest = prng.Derive(r.Seed(), "loadtest").Chance(1, 3) // (own stream: does not shift the program)
 	nf := cfg.NFiles
 	for i := 0; i < nf; i++ {
 		g.prog.Files = append(g.prog.Files, &File{Name: fmt.Sprintf("%sgen_%d.go", cfg.Prefix, i), UsesAPI: true})
